@@ -117,7 +117,11 @@ def main(argv):
     ev["assumptions"] = list(getattr(P, "ASSUMPTIONS", []))
 
     # ---- 3/4. correspondence + monitors
-    fams = P.families(tier, seed)
+    import inspect
+    if len(inspect.signature(P.families).parameters) >= 3:
+        fams = P.families(tier, seed, {"cdir": cdir, "qdir": qdir, "status": status})
+    else:
+        fams = P.families(tier, seed)
     corr = {"families": {}, "scripts": 0, "ops": 0, "disagreements": 0, "sanitizer_reports": 0, "monitor_hits": 0}
     samples = []
     hits_all = []
@@ -150,7 +154,10 @@ def main(argv):
                 fstat["disagreements"] += 1
                 disagree.append((fam, r))
             if fam.monitor and r["c_rc"] == 0:
-                hs = fam.monitor(r["script"], r["c"])
+                if getattr(fam, "monitor_wants_model", False):
+                    hs = fam.monitor(r["script"], r["c"], r.get("m", []))
+                else:
+                    hs = fam.monitor(r["script"], r["c"])
                 for h in hs:
                     h["family"] = fam.name
                     h["script_name"] = r["name"]
